@@ -97,6 +97,9 @@ def probes(rng, n_random):
     for a, b in [(1, 2), (2, 5), (0, 2), (3, 3), (2, 0)]:
         add("make_resistant_length %d %d" % (a, b), INVALID)
     add("make_resistant_length 2 2", None)
+    for a, b in [(2, 1), (2, 0), (2, 3), (2, 7), (1, 2)]:
+        add("make_resistant_length %d %d 0" % (a, b), INVALID)   # wrong lengths are errors also without infection
+    add("make_resistant_length 2 2 0", None)
     add("make_resistant_too_many", INVALID)
     add("weather_missing", LOGIC)
     add("temperature_missing", LOGIC)
